@@ -73,6 +73,15 @@ fn gen_set(rng: &mut Rng, inst: Option<&catalog::Inst>, domain: &str, len: usize
                 p[1] = rng.logmag(10.0, 1e9);
             }
             3 if i > 0 => p = v[rng.below(i)],
+            5 | 6 if i > 0 => {
+                // the predecessor again, but for one element (same place at another height or
+                // epoch, same height elsewhere...): whatever an operator remembers of the last
+                // tuple must not leak into this one
+                let fresh = p;
+                p = v[i - 1];
+                let k = rng.below(4);
+                p[k] = fresh[k];
+            }
             4 => p[rng.below(4)] = f64::INFINITY,
             _ => {}
         }
